@@ -26,7 +26,7 @@ import (
 //	call(h,m,args)      -> System.Contract.Call(h,m,All,args)
 //	tryCall(h,m,args)   -> try{call} catch{}; then notify "ok"/"caught"
 //	seq(list)           -> for [m,args] in list: Contract.Call(self,m,All,args)
-//	onNEP17Payment(from,amount,data) -> abort when data=="reject", else put("paid",amount)+notify
+//	onNEP17Payment(from,amount,data) -> abort when data=="reject", throw when data=="throw", else put("paid",amount)+notify
 //	_deploy(data,isUpdate) -> put("dep",isUpdate)
 //	update(nef,manifest) destroy()
 type kContract struct {
@@ -241,6 +241,13 @@ func buildK(name string, variant byte) *kContract {
 			emit.Opcodes(w, opcode.EQUAL)
 			emit.Instruction(w, opcode.JMPIFNOT, []byte{3})
 			emit.Opcodes(w, opcode.ABORT)
+			// data == "throw": a catchable exception raised inside a callback made by a native contract
+			emit.Opcodes(w, opcode.LDARG2)
+			emit.String(w, "throw")
+			emit.Opcodes(w, opcode.EQUAL)
+			emit.Instruction(w, opcode.JMPIFNOT, []byte{2 + 7 + 1}) // over PUSHDATA1 "nopay" (7 bytes) and THROW
+			emit.String(w, "nopay")
+			emit.Opcodes(w, opcode.THROW)
 			emit.Opcodes(w, opcode.LDARG1)
 			emit.String(w, "paid")
 			sys(w, interopnames.SystemStorageGetContext)
